@@ -1,7 +1,7 @@
 """C29 A custom hostname is bound to one client, only after DNS proof.  Spec: AcmeCtl (families validate, hist, hist_obs)."""
 import json, vf
 
-REFUSED_HOSTS = ("bare", "apex", "apexup", "acme", "apexspaced", "acmespaced")
+REFUSED_HOSTS = ("bare", "apex", "apexup", "acme", "apexspaced", "acmespaced", "apexself", "acmeself")
 
 def _why(c, e):
     if c["host"] in REFUSED_HOSTS:
@@ -13,8 +13,8 @@ def _why(c, e):
     return "cname-%s" % c["cname"]
 
 def run(ck):
-    ck.rule = ("TLC enumerates caller {A,B} x method {validate, instruction} x 10 hostname classes (valid, upper-case, white space around, bare, "
-               "apex-suffixed, upper-case apex, ACME-zone, white space inside the apex / ACME zone, non-ASCII label) x CNAME answer {own target, other client's target, junk, none} x stored binding "
+    ck.rule = ("TLC enumerates caller {A,B} x method {validate, instruction} x 12 hostname classes (valid, upper-case, white space around, bare, "
+               "apex-suffixed, upper-case apex, ACME-zone, white space inside the apex / ACME zone, non-ASCII label, the apex itself, the ACME zone itself) x CNAME answer {own target, other client's target, junk, none} x stored binding "
                "{none, caller, other client} (also with the DHT failing the read of the binding record: retryably on every attempt / otherwise) x proof {valid for the denoted name, valid for the string as sent, missing, other subject, tampered signature, expired, too few bits}, and all "
                "histories of <=3 validations by two clients with a changing DNS answer; every case runs on the real handlers over the "
                "in-memory KV provider with real proofs of work; the stored bindings are read back after every call; histories are judged "
